@@ -114,7 +114,8 @@ impl C09 {
                 let r = call(|| block_on(ax.step()));
                 let mut unchanged = true;
                 ax.verif_for_each_area(|start, _acc, data| {
-                    if let Some(ri) = REGIONS.iter().position(|r| r.start == start) {
+                    // (empty areas are the mirror's own, see build_mirror)
+                    if let Some(ri) = REGIONS.iter().position(|r| r.start == start && !data.is_empty()) {
                         if data != &pre[ri][..] {
                             unchanged = false;
                         }
@@ -778,6 +779,88 @@ impl C09 {
     }
 }
 
+impl C09 {
+    /// The heap of the built-in brk handler is an area like any other: rights the host gives it with mem_prot stay in
+    /// force whatever the guest does with the break afterwards (grow, shrink, query) until the host changes them.
+    fn heap_case(&self, k: u64, rng: &mut Rng, col: &mut Collector) {
+        use ax_x86::helpers::syscalls::Syscall;
+        let p = palette(PAL_AT_HEAP);
+        let made = call(|| {
+            let mut ax = Axecutor::new(&p.code, PAL_AT_HEAP, PAL_AT_HEAP)?;
+            ax.handle_syscalls(if rng.below(2) == 0 { vec![Syscall::Brk] } else { vec![Syscall::Pipe, Syscall::Brk, Syscall::Exit] })?;
+            Ok(ax)
+        });
+        let Call::Ok(mut ax) = made else { return };
+        let brk = |ax: &mut Axecutor, arg: u64| -> Call<u64> {
+            call(|| {
+                ax.reg_write_64(SR::RIP, p.syscall)?;
+                ax.reg_write_64(SR::RAX, 12)?;
+                ax.reg_write_64(SR::RDI, arg)?;
+                block_on(ax.step())?;
+                ax.reg_read_64(SR::RAX)
+            })
+        };
+        let before: Vec<u64> = ax.verif_areas().iter().map(|a| a.start).collect();
+        let Call::Ok(b0) = brk(&mut ax, 0) else { return };
+        let Some(heap) = ax.verif_areas().iter().find(|a| !before.contains(&a.start) && a.length > 0).map(|a| a.start) else { return };
+        let mut cur = b0;
+        let mut log: Vec<String> = vec![format!("brk(0) = {:#x} (heap area at {:#x})", b0, heap)];
+        let mut mask: u32 = 3;
+        for step in 0..rng.range(4, 14) {
+            match rng.below(4) {
+                0 => {
+                    let m = rng.below(8) as u32;
+                    if call(|| ax.mem_prot(heap, m)).is_ok() {
+                        mask = m;
+                        log.push(format!("mem_prot(heap, {})", m));
+                    }
+                }
+                1 | 2 => {
+                    let want = match rng.below(4) {
+                        0 => 0,
+                        1 => cur + rng.below(0x2000),
+                        2 => cur.saturating_sub(rng.below(0x800)).max(heap + 0x10),
+                        _ => heap + 0x10 + rng.below(0x4000),
+                    };
+                    let r = brk(&mut ax, want);
+                    log.push(format!("guest brk({:#x}) -> {}", want, match &r { Call::Ok(v) => format!("{:#x}", v), o => o.kind().to_string() }));
+                    if let Call::Ok(v) = r {
+                        if want != 0 && v >= heap {
+                            cur = v;
+                        }
+                    }
+                }
+                _ => {}
+            }
+            // the heap area's mask is what the host last set, and the paths obey it
+            let Some(a) = ax.verif_areas().into_iter().find(|a| a.start == heap && a.length > 0) else { continue };
+            col.eval(1);
+            col.distinct_key(&format!("heap|{}|{}", mask, step.min(3)));
+            if a.access != mask {
+                col.violation_case("heap:guest-brk-changed-access-rights", k, format!("heap area {:#x}: access {} although the host last set {} ({})", heap, a.access, mask, log.join("; ")), json!({"log": log}));
+                return;
+            }
+            if a.length < 0x20 {
+                continue;
+            }
+            let target = heap + rng.below(a.length - 0x10);
+            for path in [Path::ApiWrite(1), Path::ApiRead(1), Path::GuestStore, Path::GuestLoad] {
+                let need = path.needs();
+                if mask & need == need {
+                    continue;
+                }
+                let r = do_access(&mut ax, &p, path, target, k ^ step);
+                if r.is_ok() {
+                    col.violation_case(&format!("heap:access-succeeded-without-permission:{:?}", path), k, format!("{:?} at {:#x} in the heap under mask {} succeeded (needs {}) ({})", path, target, mask, need, log.join("; ")), json!({"log": log}));
+                    return;
+                }
+            }
+        }
+    }
+}
+
+const PAL_AT_HEAP: u64 = 0x66_0000_0000;
+
 impl Monitor for C09 {
     fn total_cases(&self) -> u64 {
         2 + elfgen::bundled().len() as u64 + self.tier.pick(160_000, 3_000_000)
@@ -795,6 +878,8 @@ impl Monitor for C09 {
             self.form_sweep(k, rng, col);
         } else if k % 30 == 2 {
             self.straddle(k, rng, col);
+        } else if k % 30 == 5 {
+            self.heap_case(k, rng, col);
         } else if k % 3 == 0 {
             let rich = rng.below(2) == 0;
             let spec = elfgen::gen_spec(rng, rich);
